@@ -39,6 +39,11 @@ def check(model: Model, rep: Report, tier: str):
         u4(model, rep)
     with rep.isolated():
         u5(model, rep)
+    from .common import instance_state_rule
+    with rep.isolated():
+        instance_state_rule(model, rep, "C06.U6", "the count a block is unrolled into is the one ITS registry provides: the table of a repetition registry (and any state of a "
+                            "repetition strategy) is bound per instance, not a class-level container shared by all registries",
+                            keep=lambda c: "repetition" in c.module.relpath.split("/")[-1] and "structure" in c.module.relpath)
 
 
 def u5(model: Model, rep: Report):
